@@ -47,7 +47,7 @@ const rule = "inputs are a pure function of (seed, tier, index): (a) raw byte st
 	"(e) the tar reader accepted a header or the builder accepted the input. Distinct by generator + input digest."
 
 func main() {
-	vf.Main("C04", "exploration", rule, 1000, 12000, body)
+	vf.Main("C04", "exploration", rule, 600, 6000, body)
 }
 
 var procStart = time.Now()
@@ -93,7 +93,7 @@ type crashed struct {
 }
 
 func top(r *vf.Run) {
-	n := r.N(6000, 160000)
+	n := r.N(3000, 30000)
 	n = envInt("C04_N", n)
 	from0 := envInt("C04_FROM", 0)
 	par := envInt("C04_PAR", r.N(8, 10))
@@ -107,8 +107,8 @@ func top(r *vf.Run) {
 		}
 		spans = append(spans, span{from: f, to: t})
 	}
-	for f := from0; f < n; f += 2000 {
-		t := f + 2000
+	for f := from0; f < n; f += 500 {
+		t := f + 500
 		if t > n {
 			t = n
 		}
@@ -172,15 +172,15 @@ func top(r *vf.Run) {
 	// suspects: alone, 120 s (race build: 300 s), SIGQUIT dump
 	sort.Slice(suspects, func(i, j int) bool { return suspects[i].from < suspects[j].from })
 	r.Count("suspects", len(suspects))
-	// Every hang costs its whole budget, so the number of re-runs is bounded: at most 3
+	// Every hang costs its whole budget, so the number of re-runs is bounded: at most 2
 	// per suspect stage and maxRerun in total; the others stay undecided (inconclusive).
-	maxRerun := envInt("C04_MAX_RERUN", r.N(15, 40))
+	maxRerun := envInt("C04_MAX_RERUN", r.N(6, 24))
 	perStage := map[string]int{}
 	susWork := make(chan span, len(suspects))
 	queued := 0
 	for _, s := range suspects {
 		r.Distinct("suspect_stages", s.stage)
-		if perStage[s.stage] >= 3 || queued >= maxRerun {
+		if perStage[s.stage] >= 2 || queued >= maxRerun {
 			r.Inconclusive("suspect not re-run alone (re-run budget; same stage as an already re-run suspect): stage " + s.stage)
 			continue
 		}
@@ -241,7 +241,7 @@ func top(r *vf.Run) {
 	r.Set("cases_planned", n-from0)
 	r.Set("parallel_children", par)
 	r.Assume("the Go runtime reports every fatal condition of a child on its stderr (panic / fatal error / signal) before the process ends; a death without such a report is counted inconclusive")
-	r.Assume("hang = the case, run alone, burns 90 s of CPU time (360 s in the race build) without finishing, or is parked for >=120 s with no CPU use in the last 30 s: 4-5 orders of magnitude above the normal cost (milliseconds); decided on CPU time and idleness, not on wall-clock, because the machine is shared")
+	r.Assume("hang = the case, run alone, burns 60 s of CPU time (240 s in the race build) without finishing, or is parked for >=120 s with no CPU use in the last 30 s: 4-5 orders of magnitude above the normal cost (milliseconds); decided on CPU time and idleness, not on wall-clock, because the machine is shared")
 	r.Assume("debug.SetMaxStack(16 MiB) in the children: unbounded recursion is reported as 'stack overflow' earlier than with the 1 GiB default; generated inputs nest at most ~3000 levels, far below either limit")
 	r.Assume("klauspost/compress, encoding/json, archive/tar, go-fuse, bbolt are part of the trusted base only in so far as a crash inside them with a /repo frame below is attributed to that /repo frame")
 }
@@ -518,6 +518,7 @@ func awaitCase(done <-chan struct{}, cpuLimit, idleWall, idleWindow time.Duratio
 }
 
 func runCase(c *caseRun) {
+	c.maxFiles = maxFiles
 	c.stage("case", func() {
 		switch c.in.Gen {
 		case "d":
@@ -606,7 +607,7 @@ func solo(r *vf.Run) {
 		defer close(done)
 		runCase(c)
 	}()
-	hangCPU := time.Duration(envInt("C04_HANG_CPU_S", 90)) * time.Second
+	hangCPU := time.Duration(envInt("C04_HANG_CPU_S", 60)) * time.Second
 	if r.RaceBuild {
 		hangCPU *= 4
 	}
